@@ -485,9 +485,6 @@ func (f *fakeP4) applyUpdate(u *p4.Update) codes.Code {
 		}
 		cells := f.meters[fpShort(m.Preamble.Name)]
 		if c := x.MeterEntry.Config; c != nil {
-			if c.Cir < 0 || c.Pir < 0 || c.Cburst < 0 || c.Pburst < 0 {
-				f.bad("meter-config-negative", fmt.Sprintf("%s[%d] %v", fpShort(m.Preamble.Name), i, c))
-			}
 			cells[i] = &fpMeterCell{Configured: true, Cir: c.Cir, Cburst: c.Cburst, Pir: c.Pir, Pburst: c.Pburst, Epoch: f.epoch}
 		} else {
 			delete(cells, i)
